@@ -96,6 +96,14 @@ def _compound_case(keys, dens_kind, wl_kind):
             E.eq('inc_xs_zero', inc, 0)
             E.eq('sld_inc_zero', sinc, 0)
             E.eq('penetration', pen * (o['abs'] + o['tot']), 1)
+        if wl_kind == 'energy':
+            # "If energy is specified then wavelength is ignored"
+            both = nsf.neutron_scattering(f, wavelength=E.real('lam_ignored', lo=0.05, hi=50), **kw)
+            for nm, x, y in zip(('sld_re', 'sld_im', 'sld_inc'), both[0], result[0]):
+                E.eq('energy_overrides_wavelength.' + nm, x, y)
+            for nm, x, y in zip(('coh', 'abs', 'inc'), both[1], result[1]):
+                E.eq('energy_overrides_wavelength.' + nm, x, y)
+            E.eq('energy_overrides_wavelength.pen', both[2], result[2])
         sld_only = nsf.neutron_sld(f, **kw)
         E.eq('neutron_sld.re', sld_only[0], result[0][0])
         E.eq('neutron_sld.im', sld_only[1], result[0][1])
@@ -129,6 +137,37 @@ def _direct_case(sym_el, iso):
         E.eq('sld_method.im', s[1], cv[1])
         # documented number density N = rho*N_A/m (per cm^3) of the element
         E.eq('number_density', atom.neutron._number_density * el._mass, el._density * cm.N_A)
+    return h
+
+
+def _integer_wavelength_case(kind):
+    """wavelengths given as Python ints / an integer-typed array / a list: same numbers as the float scalars"""
+    def h(E):
+        from periodictable import nsf, formulas
+        T, atoms, data = cm.sym_pool(E, 'c03', ['H', 'D', 'Y'], natural=False)
+        counts = [E.real('c_%s' % k, lo=0, lo_open=True, hi=1000) for k in ('H', 'D', 'Y')]
+        rho = E.real('rho', lo=0, lo_open=True, hi=25)
+        f = formulas.formula(list(zip(counts, atoms)))
+        lams = [1, 2, 5]
+        arg = {'int_array': np.array(lams), 'int_list': list(lams), 'arange': np.arange(1, 4), 'tuple': tuple(lams)}[kind]
+        lams = list(np.asarray(arg))
+        vec = nsf.neutron_scattering(f, density=rho, wavelength=arg)
+        vflat = list(vec[0]) + list(vec[1]) + [vec[2]]
+        names = ['sld_re', 'sld_im', 'sld_inc', 'coh', 'abs', 'inc', 'pen']
+        for i, l in enumerate(lams):
+            sc = nsf.neutron_scattering(f, density=rho, wavelength=float(l))
+            sflat = list(sc[0]) + list(sc[1]) + [sc[2]]
+            for nm, v, sv in zip(names, vflat, sflat):
+                ok = isinstance(v, np.ndarray) and v.shape == (len(lams),)
+                E.fact('integer_wavelengths.shape.' + nm, ok, note=repr(getattr(v, 'shape', None)))
+                if ok:
+                    E.eq('integer_wavelengths[%d].%s' % (i, nm), v[i], sv)
+        # and the element queried directly
+        d = atoms[0].neutron.scattering(wavelength=arg)
+        for i, l in enumerate(lams):
+            ds = atoms[0].neutron.scattering(wavelength=float(l))
+            E.eq('integer_wavelengths.direct[%d].sld_inc' % i, d[0][2][i], ds[0][2])
+            E.eq('integer_wavelengths.direct[%d].pen' % i, d[2][i], ds[2])
     return h
 
 
@@ -244,6 +283,8 @@ def cases(tier):
         out.append(Case('compound[%s|%s|%s]' % ('+'.join(keys), dk, wk), _compound_case(keys, dk, wk),
                         max_paths=64 if tier == 'quick' else 512, timeout_ms=30000 if tier == 'quick' else 90000,
                         portfolio=(tier == 'thorough')))
+    for kind in (['int_array', 'int_list'] if tier == 'quick' else ['int_array', 'int_list', 'arange', 'tuple']):
+        out.append(Case('integer_wavelengths[%s]' % kind, _integer_wavelength_case(kind), max_paths=64, timeout_ms=30000))
     direct = [('Fe', None), ('Ni', 58), ('H', 2)]
     if tier == 'thorough':
         direct += [('H', None), ('H', 1), ('Gd', None), ('Gd', 157), ('Au', None), ('B', 10), ('Li', 6), ('U', 235), ('Sm', 149)]
